@@ -74,22 +74,6 @@ Definition exp_oracle (input call : json) : option string :=
       | _, _, _ => Some "exp missing or not an integer" end
   end.
 
-Definition decide_ (P : json -> option string) (impl model : json) (nontrivial : bool) (what : string) : verdict :=
-  match P impl with
-  | Some why => VPropFail (what ++ ": " ++ why ++ " [model: " ++ obs_class model ++ "]")
-  | None =>
-      if json_eqb impl model then
-        match P model with None => VOk nontrivial | Some why => VBad ("oracle fails on the model: " ++ why) end
-      else VMismatch (what ++ ": impl " ++ obs_class impl ++ ", model " ++ obs_class model)
-  end.
-
-Definition rank_ (v : verdict) : nat :=
-  match v with VPropFail _ => 0 | VMismatch _ => 1 | VBad _ => 2 | VOk _ => 3 end.
-Definition worst_ (a b : verdict) : verdict :=
-  match a, b with
-  | VOk x, VOk y => VOk (x || y)
-  | _, _ => if Nat.leb (rank_ a) (rank_ b) then a else b end.
-
 (* C14: success exactly when the path list is a valid marking; never a panic *)
 Definition encode_oracle (expect : string) (o : json) : option string :=
   if String.eqb expect "any" then None   (* input outside the property's domain: only model = implementation is compared *)
@@ -140,7 +124,7 @@ Definition case_issue_call (input call : json) : verdict :=
   let mo := if obs_is "ok" eo then obs_of_out (fun r : string * json * list disc => JStr (fst (fst r))) m
             else match m with Val _ => JObj [("o", JStr "ok")] | Fail => JObj [("o", JStr "err")] | Panic => JObj [("o", JStr "panic")] end in
   let nt := jbool (jget "nontrivial" input) in
-  let v1 := decide_ (fun o => match encode_oracle (jstr_or_empty (jget "expect_issue" input)) o with
+  let v1 := decide (fun o => match encode_oracle (jstr_or_empty (jget "expect_issue" input)) o with
                               | Some w => Some w
                               | None => if obs_is "ok" o then exp_oracle input call else None end) eo mo nt "Issuer::encode" in
   if obs_is "ok" eo then
@@ -155,12 +139,12 @@ Definition case_issue_call (input call : json) : verdict :=
     let P := match jlist (jget "paths" input) with
              | [] => fun o => if obs_is "panic" o then Some "Holder::verify panics" else None
              | _ => roundtrip_oracle claims (jlist (jget "path_triples" input)) end in
-    let v2 := decide_ P (jget "hverify" call) mh nt "Holder::verify" in
-    worst_ v1 v2
+    let v2 := decide P (jget "hverify" call) mh nt "Holder::verify" in
+    worst v1 v2
   else v1.
 
 Definition case_issue (input obs : json) : verdict :=
   match jlist (jget "calls" obs) with
   | [] => VBad "issue: no calls"
-  | c :: cs => fold_left (fun acc call => worst_ acc (case_issue_call input call)) cs (case_issue_call input c)
+  | c :: cs => fold_left (fun acc call => worst acc (case_issue_call input call)) cs (case_issue_call input c)
   end.
